@@ -813,8 +813,9 @@ def model_apply(case, mm, op, cap, strict=True):
         return results
     elif kind == 'grading':
         model_grading(case, mm, op['sigma'], 4, cap)
-    elif kind == 'client_patch':
-        pass  # reading the neighbour relation does not change the mesh
+    elif kind in ('client_patch', 'decoy'):
+        pass  # reading the neighbour relation / refining another mesh
+        # object does not change this mesh
     else:
         raise ValueError(kind)
     return None
@@ -914,6 +915,21 @@ def apply_op(case, op, cov, mode, log):
             return patch
 
         run_impl(case, op, kind, collect)
+    elif kind == 'decoy':
+        # a second mesh object of the same configuration lives in the same
+        # process and is refined between the operations on the first: state
+        # that belongs to one mesh must not be shared through the classes
+        # or the module (counters, memo tables keyed by geometry, ...)
+        site = 'bisect/decoy'
+        if getattr(case, 'decoy', None) is None:
+            case.decoy = build_impl(case.config)
+        d = case.decoy
+        if len(d.leaf_elements) < 3000:
+            leaves = list(d.leaf_elements)
+            e = leaves[op['k'] % len(leaves)]
+            fn = (d.refine_time, d.refine_space, d.refine)[op['axis']]
+            run_impl(case, op, site, lambda: fn(e))
+            cov.inc('probe.second_mesh_object_refined_in_between')
     elif kind in ('uniform', 'uniform_space'):
         fn = mesh.uniform_refine if kind == 'uniform' else (
             mesh.uniform_refine_space)
@@ -997,7 +1013,7 @@ def apply_op(case, op, cov, mode, log):
 
     # ---- compare / adopt
     transparent = kind in ('bisect', 'uniform', 'uniform_space',
-                           'client_patch')
+                           'client_patch', 'decoy')
     if transparent and mode.get('compare'):
         boxes = case.check_leafset(site)
     elif kind.startswith('dorfler') and mode.get('dorfler_oracle') and (
@@ -1266,6 +1282,14 @@ def gen_run(seed, params):
             continue
         mm = trial
         ops.append(op)
+    # a second mesh object in the same process (own stream: the runs without
+    # it stay what they were)
+    drng = stream(seed, 'workload-decoy')
+    if ops and drng.random() < params.get('p_decoy', 0.12):
+        for _ in range(drng.randint(1, 6)):
+            ops.insert(drng.randrange(len(ops) + 1), {
+                'op': 'decoy', 'k': drng.randrange(1 << 20),
+                'axis': drng.choice([0, 1, 1, 2])})
     return {'config': config, 'ops': ops}
 
 
